@@ -273,11 +273,11 @@ fn s_raw(t: &mut Tape, ctx: &mut Ctx) -> Result<(), Failure> {
 fn stream(name: &'static str, f: crate::run::TapeFn, q: u64, th: u64) -> Stream {
     // function pointers cannot capture; counts are encoded per stream below
     let cases: fn(Tier) -> u64 = match name {
-        "program" => |t| t.pick(24_000, 1_500_000),
-        "module" => |t| t.pick(10_000, 500_000),
-        "json" => |t| t.pick(8_000, 400_000),
-        "value" => |t| t.pick(14_000, 500_000),
-        _ => |t| t.pick(4_000, 100_000),
+        "program" => |t| t.pick(70_000, 3_000_000),
+        "module" => |t| t.pick(30_000, 1_000_000),
+        "json" => |t| t.pick(25_000, 800_000),
+        "value" => |t| t.pick(40_000, 1_500_000),
+        _ => |t| t.pick(12_000, 400_000),
     };
     let _ = (q, th);
     Stream {
